@@ -129,7 +129,9 @@ def check_case(case):
         df = df.drop(columns=["baf"])
     from vk import gen
 
-    gen.relabel(df, gen.spec_for(case))
+    # one table in eight carries repeated row labels (per-chromosome pieces concatenated without renumbering), which
+    # do_call accepts and renumbers itself
+    gen.relabel(df, "perchrom" if gen.pick(case, "dup", 8) == 0 and "row_labels" not in case else gen.spec_for(case))
     cnarr = CopyNumArray(df, {"sample_id": "s"})
     before = cnarr.data.copy()
     kw = {} if case["thresholds"] == "default" else {"thresholds": tuple(thr)}
